@@ -108,7 +108,8 @@ def run_membership(ctx):
                     ctx.count('rejected_no_centre')
                     continue
                 wit = lambda **k: dict(mask=mask.astype(int), radius=radius, threshold=thr, **k)  # noqa: E731
-                ok, out = ctx.guarded('centers', sig, SL.get_volume_searchlight, mask.copy(), radius=radius,
+                ok, out = ctx.guarded('centers', sig, SL.get_volume_searchlight,
+                                      np.asfortranarray(mask) if rng.integers(2) else mask.copy(), radius=radius,
                                       threshold=thr, data=wit)
                 if not ok:
                     return
@@ -153,6 +154,8 @@ def run_rdms(ctx, chunked, dtype='float', caller_order=None):
         shape = tuple(int(v) for v in rng.integers(3, 6, size=3))
         radius, thr = float(gen.pick(rng, [1.5, 2, 2.5])), float(gen.pick(rng, [0.5, 0.8, 1.0]))
     mask = np.ones(shape, bool) if chunked or rng.integers(2) else rng.random(shape) < 0.8
+    if rng.integers(2):
+        mask = np.asfortranarray(mask)      # column-major storage, as neuroimaging readers deliver volumes
     try:
         centers, neighbors = SL.get_volume_searchlight(mask, radius=radius, threshold=thr)
     except Exception:
@@ -172,7 +175,10 @@ def run_rdms(ctx, chunked, dtype='float', caller_order=None):
         events = np.array([f'ev{c}' for c in events])
     data = rng.standard_normal((len(events), int(np.prod(shape))))
     if dtype == 'int':
-        data = rng.integers(-20, 21, size=data.shape).astype(np.int64)     # e.g. raw scanner units / counts
+        # e.g. raw scanner units / counts, in a wide or a narrow integer type
+        data = rng.integers(-20, 21, size=data.shape).astype(np.int64 if rng.integers(2) else np.int8)
+    if dtype == 'int8':
+        data = rng.integers(-20, 21, size=data.shape).astype(np.int8)
     method = gen.pick(rng, ['correlation', 'euclidean'])
     check = 'rdm_chunked' if chunked else 'rdm_small'
     sig = dict(what=check, method=method, chunked=chunked, n_centers='>1000' if len(centers) > 1000 else '<=1000',
@@ -294,7 +300,7 @@ def run(ctx):
         run_rdms(ctx, False, dtype='int')
     if ctx.shard == 0:
         run_rdms(ctx, True, dtype=gen.pick(ctx.rng, ['float', 'int']), caller_order=False)
-        run_rdms(ctx, True, dtype='int', caller_order=True)
+        run_rdms(ctx, True, dtype='int8', caller_order=True)
         run_schedules(ctx, weighted=False, reorder=True)
         run_schedules(ctx, weighted=True, reorder=False)
     else:
